@@ -68,6 +68,10 @@ pub struct CEntry {
     /// `<RvslInd>` written with this value
     #[serde(default)]
     pub reversal_ind: Option<bool>,
+    /// an entry without details that announces a batch all the same: `<NtryDtls><Btch><NbOfTxs>n`
+    /// and no `TxDtls` (a collective booking the bank does not break down); 0 = not written
+    #[serde(default)]
+    pub announced: u8,
 }
 
 #[derive(Clone, Debug, PartialEq, Eq, Serialize, Deserialize, Hash)]
@@ -155,6 +159,9 @@ pub fn render_xml(sc: &Sc, st: &Stmt) -> String {
         match &e.domain {
             Some((d, f, sf)) => s.push_str(&format!("<BkTxCd><Domn><Cd>{}</Cd><Fmly><Cd>{}</Cd><SubFmlyCd>{}</SubFmlyCd></Fmly></Domn></BkTxCd>\n", d, f, sf)),
             None => s.push_str("<BkTxCd><Prtry><Cd>XYZ</Cd><Issr>Bank</Issr></Prtry></BkTxCd>\n"),
+        }
+        if e.details.is_empty() && e.announced > 0 {
+            s.push_str(&format!("<NtryDtls>\n<Btch><NbOfTxs>{}</NbOfTxs></Btch>\n</NtryDtls>\n", e.announced));
         }
         if !e.details.is_empty() {
             s.push_str(&format!("<NtryDtls>\n<Btch><NbOfTxs>{}</NbOfTxs></Btch>\n", e.details.len()));
@@ -513,13 +520,20 @@ pub fn gen_sc(rng: &mut Rng, hostile: bool, multi: bool) -> Sc {
                 total += amount;
                 let charge = if has_operator && rng.chance(1, 6) {
                     let x = Dec::new(1 + rng.below(300) as i64, 2);
-                    if !credit && x >= amount { None } else { Some(x) }
+                    if !credit && rng.chance(1, 6) {
+                        // the whole debit is the bank's charge: the amount before charges is zero
+                        Some(amount)
+                    } else if !credit && x >= amount {
+                        None
+                    } else {
+                        Some(x)
+                    }
                 } else {
                     None
                 };
                 let not_included = charge.is_some() && rng.chance(1, 4);
                 let charge_extra = match charge {
-                    Some(x) if !not_included && rng.chance(1, 3) => {
+                    Some(x) if !not_included && x != amount && rng.chance(1, 3) => {
                         let y = Dec::new(1 + rng.below(200) as i64, 2);
                         if !credit && x + y >= amount { None } else { Some(y) }
                     }
@@ -576,6 +590,7 @@ pub fn gen_sc(rng: &mut Rng, hostile: bool, multi: bool) -> Sc {
                 _ => None,
             };
             entries.push(CEntry {
+                announced: if details.is_empty() && rng.chance(1, 4) { [1u8, 2, 3, 12][rng.usize(4)] } else { 0 },
                 reversal_ind,
                 amount,
                 credit,
